@@ -658,6 +658,10 @@ class Base64Engine:
         # the original can't be recovered... and bytes() will throw
         # an error because 1+ values in <buf> will be None.
         tmp = self.decode_bytes(source)
+        if len(tmp) != len(offsets):
+            raise ValueError(
+                "input has wrong size (expected %d bytes, got %d)" % (len(offsets), len(tmp))
+            )
         buf = [None] * len(offsets)
         for off, char in zip(offsets, tmp):
             buf[off] = char
